@@ -85,8 +85,9 @@ CLAIMS = {
             'arguments and possibly the parameter; any inherit set; cache layers) and any requested outputs: threading the contexts through the connections and '
             'reversing them computes forward fields in order ; f ; backward parts in reverse order, each with its own layer\'s parameter value, and is rejected exactly '
             'when x or a requested field is unreachable; a forward-only layer anywhere rejects. _decorate / _wrap / _loopback of real chains are compared with the model.',
-            'one forward field and one private parameter per layer, backward fields y and w in the harness; Inverse._wrap and ChainContext.reverse are additionally '
-            'tied by whole-body translator patterns'),
+            'the loopback model (Model/Loopback.v) is hand-written from containers/context.py and base.py and tied by the correspondence on chains of 1-6 generic layers '
+            '(any number of backward fields, forward fields named like backward ones, same-name decoration, multi-output functions); Inverse._wrap and '
+            'ChainContext.reverse are additionally tied by whole-body translator patterns'),
     'C12': ('Theorems on a model of the two-level content-addressed store at the granularity of single file-system mutations: for every interleaving of process '
             'steps, process deaths, loss of any blobs, loss or truncation of any index files and new processes, every answered call returns the value of its '
             'entry and no write meets a conflicting index; a hit names only present blobs; an uninterrupted call always ends with the entry readable, for any acyclic nesting of disk caches. The real '
